@@ -154,7 +154,7 @@ func segCount(p string) int { return len(strings.Split(strings.Trim(p, "/"), "/"
 func newSandbox(parent string, idx int, c *Case) *sandbox {
 	root := filepath.Join(parent, fmt.Sprintf("c%06d", idx))
 	sb := &sandbox{root: root}
-	sb.vroot = "/" + strings.TrimSuffix(strings.Repeat("r/", segCount(root)), "/")
+	sb.vroot = "/" + strings.Split(strings.Trim(root, "/"), "/")[0] + strings.Repeat("/r", segCount(root)-1)
 	p := root
 	for i := 0; i < nest; i++ {
 		p = filepath.Join(p, "o")
@@ -177,23 +177,61 @@ func newSandbox(parent string, idx int, c *Case) *sandbox {
 	}
 	must(os.WriteFile(filepath.Join(sb.base, "targetx"), []byte("X"), 0o644))
 	must(os.WriteFile(filepath.Join(sb.cwd, "cf"), []byte("CWDFILE"), 0o644)) // SymlinkIgnore reads relative targets from the cwd
+	// "host" area: existing host files / an empty directory whose absolute paths image entries may spell
+	must(os.MkdirAll(filepath.Join(sb.base, "host", "etc"), 0o755))
+	must(os.Mkdir(filepath.Join(sb.base, "host", "emptydir"), 0o755))
+	must(os.WriteFile(filepath.Join(sb.base, "host", "etc", "x"), []byte("HOSTX"), 0o644))
+	must(os.WriteFile(filepath.Join(sb.base, "host", "etc", "keep"), []byte("HOSTKEEP"), 0o644))
+	must(os.WriteFile(filepath.Join(sb.base, "host", "top"), []byte("HOSTTOP"), 0o644))
 	return sb
 }
 
+// virt renames the random part of the case root, segment-wise and wherever it occurs (an entry name
+// that spells a host path ends up as ExtractDir/layer-i/<real root>/...): the first segment of the
+// root ("tmp") is kept, every following root segment becomes "r".
 func (sb *sandbox) virt(p string) string {
-	if p == sb.root {
-		return sb.vroot
+	R := strings.Split(strings.Trim(sb.root, "/"), "/")
+	if len(R) < 2 {
+		return p
 	}
-	if strings.HasPrefix(p, sb.root+"/") {
-		return sb.vroot + p[len(sb.root):]
+	segs := strings.Split(p, "/")
+	for i := 1; i < len(segs); i++ {
+		if segs[i] == R[1] && segs[i-1] == R[0] {
+			for j := 1; j < len(R) && i+j-1 < len(segs) && segs[i+j-1] == R[j]; j++ {
+				segs[i+j-1] = "r"
+			}
+		}
 	}
-	return p
+	return strings.Join(segs, "/")
 }
 
 var extractRe = regexp.MustCompile(`osv-scalibr-image-scanning-[0-9]+`)
 
 func (sb *sandbox) virtAll(p string) string {
 	return extractRe.ReplaceAllString(sb.virt(p), "E")
+}
+
+// expandHost replaces the placeholders $HOSTABS / $HOSTREL in an entry name by the absolute path of
+// the sandbox's host area (real or virtualised), with and without the leading slash.
+func (sb *sandbox) expandHost(name string, real bool) string {
+	h := filepath.Join(sb.base, "host")
+	if !real {
+		h = sb.virt(h)
+	}
+	name = strings.ReplaceAll(name, "$HOSTABS", h)
+	return strings.ReplaceAll(name, "$HOSTREL", strings.TrimPrefix(h, "/"))
+}
+
+func (sb *sandbox) expandLayers(layers [][]Entry, real bool) [][]Entry {
+	out := make([][]Entry, len(layers))
+	for i, l := range layers {
+		for _, e := range l {
+			e.Name = sb.expandHost(e.Name, real)
+			e.Link = sb.expandHost(e.Link, real)
+			out[i] = append(out[i], e)
+		}
+	}
+	return out
 }
 
 func snapshot(sb *sandbox) []Snap {
@@ -552,7 +590,7 @@ func runUnpack(sb *sandbox, c *Case, out *runOut) {
 }
 
 func runImage(sb *sandbox, c *Case, out *runOut) {
-	img, err := buildImage(c.Layers)
+	img, err := buildImage(sb.expandLayers(c.Layers, true))
 	must(err)
 	tarPath := filepath.Join(sb.in, "image.tar")
 	if c.Op == "image-tarball" {
@@ -711,8 +749,9 @@ func coqLCase(sb *sandbox, c *Case) string {
 	vtmp := sb.virt(sb.tmp)
 	extract := vtmp + "/E"
 	var ls []string
-	for i := len(c.Layers) - 1; i >= 0; i-- {
-		ls = append(ls, fmt.Sprintf("(%s, %s)", cf.Str(fmt.Sprintf("%s/layer-%d", extract, i)), coqEntries(c.Layers[i], nil, true)))
+	vl := sb.expandLayers(c.Layers, false)
+	for i := len(vl) - 1; i >= 0; i-- {
+		ls = append(ls, fmt.Sprintf("(%s, %s)", cf.Str(fmt.Sprintf("%s/layer-%d", extract, i)), coqEntries(vl[i], nil, true)))
 	}
 	return fmt.Sprintf("{| lc_extract := %s; lc_max := %s;\n     lc_init := %s;\n     lc_layers := %s;\n     lc_obs1 := %s;\n     lc_err := %s;\n     lc_obs2 := %s; lc_meta_ok := %s |}",
 		cf.Str(extract), cf.Z(c.MaxBytes), coqFS(sb, c.Init, true), cf.List(ls), coqFS(sb, c.Obs, true),
@@ -1144,6 +1183,13 @@ func genImage(r *rand.Rand, stream string) *Case {
 					budget = b
 					break
 				}
+			}
+			if stream != "image-benign" && r.Intn(5) == 0 {
+				// an entry that spells the absolute path of an existing host file / empty directory
+				e.Name = []string{"$HOSTABS/etc/x", "$HOSTREL/etc/x", "./$HOSTREL/etc/x", "$HOSTABS/emptydir", "$HOSTREL/top", "/./$HOSTREL/etc/keep"}[r.Intn(6)]
+				e.Type = "reg"
+				e.Link = ""
+				e.Size = []int{1, 9, 10, 11, 17, 40}[r.Intn(6)]
 			}
 			if stream == "image-benign" {
 				// avoid the fatal file/dir conflicts most of the time
